@@ -45,7 +45,7 @@ PROBES = ["invivo_pipeline_reads_checked", "invivo_restored_items_checked", "inv
           "absent_read", "fault_write_enospc", "fault_write_torn", "fault_read_eio", "fault_reported",
           "read_after_fault_ok", "restart_after_fault", "dict_restore", "xprocess_restart", "numpy_integer_key", "two_failed_writes_in_one_op",
           "invivo_history_run_ok", "invivo_history_ws_plain", "invivo_history_ws_symlink", "invivo_history_ws_symlink_parent", "invivo_history_ws_symlink_sub",
-          "failed_save", "failed_resave_of_active_item"]
+          "failed_save", "failed_resave_of_active_item", "mixed_kind_column_refused"]
 # the same check again, smaller, in interpreters started with assertions stripped (python -O / PYTHONOPTIMIZE=1)
 ENV_VARIANTS = [{"name": "python-O", "env": {"PYTHONOPTIMIZE": "1"}, "runs": {'quick': 900, 'thorough': 9000}}]
 TIERS = {
@@ -121,7 +121,7 @@ FAMILY_NAMES = ["unit_gir", "scope_hierarchy", "unit_export_symbols", "class_id_
 
 def generate(rng, k):
     if k["population"] == "invivo":
-        return invivo.gen_invivo_ops(rng)
+        return invivo.gen_invivo_ops(rng, subs=("run", "run", "semantic", "semantic", "lang"))     # also the front-end alone
     if k["population"].startswith("dict"):
         return generate_dict(rng, k)
     fam = F.general_families()[k["family"]]
@@ -601,6 +601,11 @@ def execute(trace):
             else:
                 return {"step": step, "cls": "silent_write_failure",
                         "detail": {"op": _short(op), "fired": fired, "arrow_errors": arrow_err, "output": out}}
+        if arrow_err and M.get("mixed_saved"):
+            # content with a mixed-kind column was saved on purpose: the (reported) refusal is a failed write like an injected
+            # one - the bundle is damaged, its items are at risk - and not a finding about a kind of analysis result
+            hit("mixed_kind_column_refused")
+            return None
         if arrow_err:
             return {"step": step, "cls": "unserialisable_item",
                     "detail": {"op": _short(op), "output": out[-400:],
@@ -628,6 +633,8 @@ def execute(trace):
                 if err is not None and not fired:
                     violation = {"step": step, "cls": "save_failed", "detail": {"op": _short(op), "error": f"{type(err).__name__}: {str(err)[:300]}"}}
                     break
+                if op["desc"].get("mixed"):
+                    M["mixed_saved"] = True
                 M["latest"][i] = expected
                 M["hist"].setdefault(i, set()).add(expected)
                 M["tokens"][i] = toks
